@@ -27,7 +27,8 @@ ASSUMPTIONS = ["Python integers / model.tower.Ext arithmetic is the reference fo
                "generators, Hasse bound, CM discriminant, twist order on random points, r | Phi12(p)",
                "scalar policy of DESIGN.md section 3 (C03): 0 <= k < r exact and error-free, other scalars exact or an error",
                "multiplication/exponentiation routines are only given members of the respective order-r group",
-               "the predicates are given normalised (affine) points, as produced by the decoders"]
+               "points are passed in normalised form, in the build's native projective system written with a random Z, and as "
+               "raw result objects of g?_add / g?_dbl / g?_blind (read back and compared with the model before use)"]
 
 
 # the pairing layer (g1_/g2_/gt_ macros) of the 638-bit build is compiled for the k = 18 default curve of that size, so the
@@ -188,11 +189,70 @@ def run(ctx, part):
             return E1.from_jacob(x, y, z), coord, canon, z
         raise ValueError("coord tag %r" % coord)
 
-    def g1_write(P, pt):
+    # representations of an input point: "aff" (normalised), "proj-in" (the build's native projective system written with a
+    # random Z), "lib-proj-in" (the raw result object of g?_add / g?_dbl / g?_blind of model-known points)
+    FORMS = ("aff", "proj-in", "lib-proj-in")
+    NAT1 = {"ep_add_projc": K["PROJC"], "ep_add_jacob": K["JACOB"], "ep_add_basic": BAS}[R.target("g1_add")]
+    L1a, L1b, L1c = R.ep_new(), R.ep_new(), R.ep_new()
+
+    def fsfx(form):
+        return "" if form == "aff" else "|" + form
+
+    def g1_write(P, pt, form="aff", order=None):
+        """-> description of the encoding"""
         if pt is None:
             R.ep_put(P, 0, 0, 0, BAS)
-        else:
+            return "O"
+        if form == "aff" or NAT1 == BAS:
             R.ep_put(P, pt[0], pt[1], 1, BAS)
+            return "aff"
+        if form == "lib-proj-in":
+            how = rng.choice(["add", "add", "blind", "dbl" if order else "add"])
+            res = None
+            if how == "add":
+                V = G1.mul(rng.randrange(1, 1 << 16))
+                U = E1.add(pt, E1.neg(V))
+                if U is None or E1.eq(U, V):
+                    how = "blind"
+                else:
+                    R.ep_put(L1a, U[0], U[1], 1, BAS)
+                    R.ep_put(L1b, V[0], V[1], 1, BAS)
+                    g1_poison(L1c)
+                    res = R.call("g1_add", L1c, L1a, L1b)
+            if how == "dbl":
+                H = E1.mul((order + 1) // 2, pt)
+                R.ep_put(L1a, H[0], H[1], 1, BAS)
+                g1_poison(L1c)
+                res = R.call("g1_dbl", L1c, L1a)
+            if how == "blind":
+                R.ep_put(L1a, pt[0], pt[1], 1, BAS)
+                g1_poison(L1c)
+                res = R.call("g1_blind", L1c, L1a)
+            try:
+                got, coord, canon, z = g1_read(L1c)
+            except (ValueError, ZeroDivisionError):
+                got = "bad"
+            if not res.caught and got not in ("bad", None) and E1.eq(got, pt):
+                ctypes.memmove(P, L1c, K["sizeof_ep_st"])
+                ctx.add("lib_projective_inputs", 1)
+                return {"lib": how, "tag": coord, "z": hx(z)}
+            ctx.add("lib_projective_fallbacks", 1)      # a wrong producer is judged by its own property; fall back
+        Z = rng.choice([rng.randrange(1, p), rng.randrange(1, p), p - 1, rng.randrange(1, 1 << 16)])
+        if NAT1 == K["PROJC"]:
+            R.ep_put(P, pt[0] * Z % p, pt[1] * Z % p, Z, NAT1)
+        else:
+            Z2 = Z * Z % p
+            R.ep_put(P, pt[0] * Z2 % p, pt[1] * Z2 * Z % p, Z, NAT1)
+        return {"proj": hx(Z)}
+
+    def g2_write(P, pt, form="aff", order=None):
+        if pt is None or form == "aff":
+            e.put(P, pt, F2)
+            return "aff" if pt is not None else "O"
+        return env.wr(P, pt, env.NAT if form == "proj-in" else "L", order=order)
+
+    def rform():
+        return rng.choice(["aff", "aff", "aff", "proj-in", "lib-proj-in"])
 
     def g1_poison(P, cnt=1):
         ctypes.memset(P, R.poison, K["sizeof_ep_st"] * cnt)
@@ -288,6 +348,11 @@ def run(ctx, part):
             assert truth == expect, "model inconsistency for G1 candidate " + cls
             g1_write(PA, pt)
             valid_case("g1_is_valid", cls, PA, truth, {"P": p1d(pt)}, nontrivial=pt is not None)
+            if pt is not None and NAT1 != BAS:
+                # the same element as a projective representative (off-curve coordinates: written form only)
+                for form in (FORMS[1:] if E1.on_curve(pt) else FORMS[1:2]):
+                    enc = g1_write(PA, pt, form, order=n if truth else None)
+                    valid_case("g1_is_valid", cls + fsfx(form), PA, truth, {"P": p1d(pt), "enc": enc})
 
     # ---- G2
     small2 = []
@@ -336,6 +401,10 @@ def run(ctx, part):
             else:
                 e.put_raw(A2, pt[0], pt[1], (1, 0), e.BASIC)
             valid_case("g2_is_valid", cls, A2, truth, {"P": pd(pt)}, nontrivial=pt is not None)
+            if pt is not None and env.NAT != "A":
+                for form in (FORMS[1:] if E2.on_curve(pt) else FORMS[1:2]):
+                    enc = g2_write(A2, pt, form, order=n if truth else None)
+                    valid_case("g2_is_valid", cls + fsfx(form), A2, truth, {"P": pd(pt), "enc": enc})
 
     # ---- GT
     def fd(x):
@@ -402,14 +471,15 @@ def run(ctx, part):
     def in_range(k):
         return 0 <= k < n
 
-    def g1_mul_case(fn, scls, k, base, bcls):
+    def g1_mul_case(fn, scls, k, base, bcls, form="aff"):
         def body():
             if not env.fits(k):
                 return
-            key = "%s|%s|%s" % (fn, kcls(scls), bcls)
-            g1_write(PA, base.P)
+            key = "%s|%s|%s%s" % (fn, kcls(scls), bcls, fsfx(form))
+            enc = g1_write(PA, base.P, form, order=base.order)
             env.setk(env.k, k)
-            if not ctx.begin(key, {"P": p1d(base.P), "k": hx(k), "kclass": scls}, nontrivial=base.P is not None and k != 0):
+            if not ctx.begin(key, {"P": p1d(base.P), "enc": enc, "k": hx(k), "kclass": scls},
+                             nontrivial=base.P is not None and k != 0):
                 return
             g1_poison(PC)
             before = R.get(PA, K["sizeof_ep_st"])
@@ -431,18 +501,24 @@ def run(ctx, part):
             for scls, k in (("zero", 0), ("one", 1), ("rand", rng.randrange(n)), ("neg-small", -3)):
                 if mine():
                     g1_mul_case(fn, scls, k, epx.Base(E1, None), "identity")
+            for form in FORMS[1:]:
+                for scls, k in (("one", 1), ("small", 3), ("dig-edge", (1 << 64) + 1), ("n-1", n - 1), ("n", n), ("neg-small", -2),
+                                ("neg", -rng.randrange(n)), ("rand", rng.randrange(n)), ("rand", rng.randrange(n)),
+                                ("over", n * n + 7)):
+                    if mine():
+                        g1_mul_case(fn, scls, k, rng.choice(S1), "member", form)
     for _ in range(N(240, 3000)):
         fn = rng.choice(g1fns)
         scls, k = rand_scalar(env)
         b = G1 if fn == "g1_mul_gen" else rng.choice(S1 + [G1])
-        g1_mul_case(fn, scls, k, b, "gen" if b is G1 else "member")
+        g1_mul_case(fn, scls, k, b, "gen" if b is G1 else "member", "aff" if fn == "g1_mul_gen" else rform())
 
-    def g1_dig_case(d, base, bcls):
+    def g1_dig_case(d, base, bcls, form="aff"):
         def body():
             dc = "zero" if d == 0 else ("one" if d == 1 else ("top-bit" if d >> 63 else "dig"))
-            key = "g1_mul_dig|%s|%s" % (dc, bcls)
-            g1_write(PA, base.P)
-            if not ctx.begin(key, {"P": p1d(base.P), "k": hx(d)}, nontrivial=base.P is not None and d != 0):
+            key = "g1_mul_dig|%s|%s%s" % (dc, bcls, fsfx(form))
+            enc = g1_write(PA, base.P, form, order=base.order)
+            if not ctx.begin(key, {"P": p1d(base.P), "enc": enc, "k": hx(d)}, nontrivial=base.P is not None and d != 0):
                 return
             g1_poison(PC)
             res = R.call("g1_mul_dig", PC, PA, d)
@@ -455,14 +531,18 @@ def run(ctx, part):
                 if mine():
                     g1_dig_case(d, b, bc)
         for _ in range(N(40, 500)):
-            g1_dig_case(rng.getrandbits(rng.choice([5, 33, 64, 64])), rng.choice(S1), "member")
+            g1_dig_case(rng.getrandbits(rng.choice([5, 33, 64, 64])), rng.choice(S1), "member", rform())
+        for form in FORMS[1:]:
+            for d in (1, 2, (1 << 64) - 1):
+                if mine():
+                    g1_dig_case(d, rng.choice(S1), "member", form)
 
     hostile = [("zero", 0), ("one", 1), ("small", 2), ("n-1", n - 1), ("n", n), ("n+1", n + 1), ("near-mult-n", 2 * n + 3),
                ("neg-small", -1), ("neg-n", -n), ("neg", -rng.randrange(n)), ("over", n * n + 1),
                ("over", rng.getrandbits(2 * env.nb + 40) | 1 << (2 * env.nb + 39)), ("rand", rng.randrange(n)),
                ("rand", rng.randrange(n))]
 
-    def g1_sim_case(kc, k, mc, m, rel="gen"):
+    def g1_sim_case(kc, k, mc, m, rel="gen", forms=("aff", "aff")):
         def body():
             if not (env.fits(k) and env.fits(m)):
                 return
@@ -478,9 +558,10 @@ def run(ctx, part):
             else:
                 bq = epx.Base(E1, None)
             g0, g1_ = sorted((group(kc), group(mc)))
-            key = "g1_mul_sim|%s|%s,%s" % (rel, g0, g1_)
-            g1_write(PA, bp.P)
-            g1_write(PB, bq.P)
+            fs = "" if forms == ("aff", "aff") else ("|lib-proj-in" if "lib-proj-in" in forms else "|proj-in")
+            key = "g1_mul_sim|%s|%s,%s%s" % (rel, g0, g1_, fs)
+            g1_write(PA, bp.P, forms[0], order=bp.order)
+            g1_write(PB, bq.P, forms[1], order=bq.order)
             env.setk(env.k, k)
             env.setk(env.m, m)
             if not ctx.begin(key, {"P": p1d(bp.P), "Q": p1d(bq.P), "k": hx(k), "m": hx(m), "kclass": [kc, mc]}):
@@ -504,7 +585,12 @@ def run(ctx, part):
         for _ in range(N(90, 1500)):
             kc, k = rand_scalar(env)
             mc, m = rand_scalar(env)
-            g1_sim_case(kc, k, mc, m, rng.choice(["gen"] * 6 + ["P=Q", "P=-Q", "infP", "infQ"]))
+            g1_sim_case(kc, k, mc, m, rng.choice(["gen"] * 6 + ["P=Q", "P=-Q", "infP", "infQ"]), (rform(), rform()))
+        for forms in (("proj-in", "aff"), ("aff", "proj-in"), ("proj-in", "proj-in"), ("lib-proj-in", "aff"),
+                      ("aff", "lib-proj-in"), ("lib-proj-in", "lib-proj-in")):
+            for rel in ("gen", "P=Q", "P=-Q"):
+                if mine():
+                    g1_sim_case("rand", rng.randrange(n), "rand", rng.randrange(n), rel, forms)
 
     def lot_case(which, cnt, special=None):
         """g1_mul_sim_lot / g2_mul_sim_lot"""
@@ -531,10 +617,8 @@ def run(ctx, part):
             kb = R.mem(R.bn_sz * max(cnt, 1), R.poison)
             try:
                 for i in range(cnt):
-                    if g1:
-                        g1_write(arr + i * sz, bases[i].P)
-                    else:
-                        e.put(arr + i * sz, bases[i].P, F2)
+                    fm = rng.choice(FORMS[1:]) if special == "proj" else "aff"
+                    (g1_write if g1 else g2_write)(arr + i * sz, bases[i].P, fm, order=bases[i].order)
                     if R.call("bn_make", kb + i * R.bn_sz, R.BN_SIZE).caught:
                         raise RuntimeError("bn_make")
                     R.bn_put(kb + i * R.bn_sz, ks[i])
@@ -564,21 +648,22 @@ def run(ctx, part):
             if mine():
                 lot_case(which, cnt)
         for cnt in (2, 5, 12):
-            for sp in ("hostile", "cancel", "with-identity"):
+            for sp in ("hostile", "cancel", "with-identity", "proj"):
                 if mine():
                     lot_case(which, cnt, sp)
         for _ in range(N(6, 150)):
-            lot_case(which, rng.choice([1, 2, 3, 4, 9, 10, 11, 12]), rng.choice([None, None, "hostile"]))
+            lot_case(which, rng.choice([1, 2, 3, 4, 9, 10, 11, 12]), rng.choice([None, None, "hostile", "proj"]))
 
     # =========================================================================== multiplication in G2
-    def g2_mul_case(fn, scls, k, base, bcls):
+    def g2_mul_case(fn, scls, k, base, bcls, form="aff"):
         def body():
             if not env.fits(k):
                 return
-            key = "%s|%s|%s" % (fn, kcls(scls), bcls)
-            e.put(A2, base.P, F2)
+            key = "%s|%s|%s%s" % (fn, kcls(scls), bcls, fsfx(form))
+            enc = g2_write(A2, base.P, form, order=base.order)
             env.setk(env.k, k)
-            if not ctx.begin(key, {"P": pd(base.P), "k": hx(k), "kclass": scls}, nontrivial=base.P is not None and k != 0):
+            if not ctx.begin(key, {"P": pd(base.P), "enc": enc, "k": hx(k), "kclass": scls},
+                             nontrivial=base.P is not None and k != 0):
                 return
             e.poison(C2)
             sa = env.snap(A2)
@@ -597,18 +682,24 @@ def run(ctx, part):
             for scls, k in (("zero", 0), ("one", 1), ("rand", rng.randrange(n)), ("neg-small", -3)):
                 if mine():
                     g2_mul_case(fn, scls, k, epx.Base(E2, None), "identity")
+            for form in FORMS[1:]:
+                for scls, k in (("one", 1), ("small", 3), ("dig-edge", (1 << 64) + 1), ("n-1", n - 1), ("n", n), ("neg-small", -2),
+                                ("neg", -rng.randrange(n)), ("rand", rng.randrange(n)), ("rand", rng.randrange(n)),
+                                ("over", n * n + 7)):
+                    if mine():
+                        g2_mul_case(fn, scls, k, rng.choice(S2), "member", form)
     for _ in range(N(180, 3000)):
         fn = rng.choice(g2fns)
         scls, k = rand_scalar(env)
         b = env.G if fn == "g2_mul_gen" else rng.choice(S2 + [env.G])
-        g2_mul_case(fn, scls, k, b, "gen" if b is env.G else "member")
+        g2_mul_case(fn, scls, k, b, "gen" if b is env.G else "member", "aff" if fn == "g2_mul_gen" else rform())
 
-    def g2_dig_case(d, base, bcls):
+    def g2_dig_case(d, base, bcls, form="aff"):
         def body():
             dc = "zero" if d == 0 else ("one" if d == 1 else ("top-bit" if d >> 63 else "dig"))
-            key = "g2_mul_dig|%s|%s" % (dc, bcls)
-            e.put(A2, base.P, F2)
-            if not ctx.begin(key, {"P": pd(base.P), "k": hx(d)}, nontrivial=base.P is not None and d != 0):
+            key = "g2_mul_dig|%s|%s%s" % (dc, bcls, fsfx(form))
+            enc = g2_write(A2, base.P, form, order=base.order)
+            if not ctx.begin(key, {"P": pd(base.P), "enc": enc, "k": hx(d)}, nontrivial=base.P is not None and d != 0):
                 return
             e.poison(C2)
             res = R.call("g2_mul_dig", C2, A2, d)
@@ -621,9 +712,13 @@ def run(ctx, part):
                 if mine():
                     g2_dig_case(d, b, bc)
         for _ in range(N(30, 500)):
-            g2_dig_case(rng.getrandbits(rng.choice([5, 33, 64, 64])), rng.choice(S2), "member")
+            g2_dig_case(rng.getrandbits(rng.choice([5, 33, 64, 64])), rng.choice(S2), "member", rform())
+        for form in FORMS[1:]:
+            for d in (1, 2, (1 << 64) - 1):
+                if mine():
+                    g2_dig_case(d, rng.choice(S2), "member", form)
 
-    def g2_sim_case(kc, k, mc, m, rel="gen"):
+    def g2_sim_case(kc, k, mc, m, rel="gen", forms=("aff", "aff")):
         def body():
             if not (env.fits(k) and env.fits(m)):
                 return
@@ -639,9 +734,10 @@ def run(ctx, part):
             else:
                 bq = epx.Base(E2, None)
             g0, g1_ = sorted((group(kc), group(mc)))
-            key = "g2_mul_sim|%s|%s,%s" % (rel, g0, g1_)
-            e.put(A2, bp.P, F2)
-            e.put(B2, bq.P, F2)
+            fs = "" if forms == ("aff", "aff") else ("|lib-proj-in" if "lib-proj-in" in forms else "|proj-in")
+            key = "g2_mul_sim|%s|%s,%s%s" % (rel, g0, g1_, fs)
+            g2_write(A2, bp.P, forms[0], order=bp.order)
+            g2_write(B2, bq.P, forms[1], order=bq.order)
             env.setk(env.k, k)
             env.setk(env.m, m)
             if not ctx.begin(key, {"P": pd(bp.P), "Q": pd(bq.P), "k": hx(k), "m": hx(m), "kclass": [kc, mc]}):
@@ -665,7 +761,12 @@ def run(ctx, part):
         for _ in range(N(60, 1500)):
             kc, k = rand_scalar(env)
             mc, m = rand_scalar(env)
-            g2_sim_case(kc, k, mc, m, rng.choice(["gen"] * 6 + ["P=Q", "P=-Q", "infP", "infQ"]))
+            g2_sim_case(kc, k, mc, m, rng.choice(["gen"] * 6 + ["P=Q", "P=-Q", "infP", "infQ"]), (rform(), rform()))
+        for forms in (("proj-in", "aff"), ("aff", "proj-in"), ("proj-in", "proj-in"), ("lib-proj-in", "aff"),
+                      ("aff", "lib-proj-in"), ("lib-proj-in", "lib-proj-in")):
+            for rel in ("gen", "P=Q", "P=-Q"):
+                if mine():
+                    g2_sim_case("rand", rng.randrange(n), "rand", rng.randrange(n), rel, forms)
 
     # =========================================================================== exponentiation in GT
     memT = [GT, GtBase(F12, GT.pow(rng.randrange(2, n)), n)]
